@@ -1821,6 +1821,19 @@ def run_check(prop, tier, seed, replay, t0):
             discharged += 1
         else:
             broken_obligations.append("regenerated obligation (synchronisation skeleton extracted from /repo by harness/cmd/skel): " + sk_text)
+    if tier == "thorough" and prop == "C01" and not broken_obligations:
+        # the independent checker re-checks every compiled file the property files depend on and lists the axioms they rely on
+        mods = ["STHProps.C%02d" % i for i in range(1, 18)]
+        for m_ in mods:
+            C.print_assumptions(m_.split(".")[1] + ".v")        # makes sure every property file is compiled (.vo) for coqchk
+        pchk = C.sh(["timeout", "14400", "coqchk", "-silent", "-o", "-Q", "theories", "STH", "-Q", "properties", "STHProps"] + mods, cwd=C.COQ, check=False)
+        summary = pchk.stdout[pchk.stdout.find("CONTEXT SUMMARY"):][:3000] if "CONTEXT SUMMARY" in pchk.stdout else pchk.stdout[-1500:]
+        cov["coqchk"] = {"exit": pchk.returncode, "summary": summary.strip().split("\n")}
+        obligations += 1
+        if pchk.returncode == 0 and re.search(r"Axioms:\s*<none>", pchk.stdout):
+            discharged += 1
+        else:
+            broken_obligations.append("coqchk does not accept the compiled development without axioms: " + summary[-600:])
     cov.update(obligations=obligations, discharged=discharged,
                checker_cmd=checker + " && coqc -Q theories STH -Q properties STHProps properties/" + spec.prop_file,
                print_assumptions=assum, grep_gate="clean" if not gate else gate)
